@@ -68,6 +68,11 @@ def registerAll : Option Entry → Nat → List (Int × Int × Bool) → RegResu
     | .ok e => registerAll (some e) (id + 1) rest
     | r => r
 
+/-- `Compile(q, WithFunction(name, …), WithFunction(name, …), …)`: every option value is
+    constructed (arity check) before `Compile` applies the first one -/
+def applyOptions (regs : List (Int × Int × Bool)) : RegResult :=
+  if regs.any (fun r => !validArity r.1 r.2.1) then .panicArity else registerAll none 1 regs
+
 /-! ## variables -/
 
 inductive Start (α : Type) where
@@ -77,7 +82,7 @@ inductive Start (α : Type) where
   | expected (name : String)
   /-- execution starts: bindings (slot per distinct name) and the remaining stack -/
   | run (env : List (String × α)) (stack : List α)
-  deriving Repr
+  deriving Repr, DecidableEq
 
 /-- `opstore` into the slot of `name` (`pushVariable`: one slot per distinct name) -/
 def store {α} (env : List (String × α)) (name : String) (v : α) : List (String × α) :=
